@@ -15,7 +15,9 @@ import (
 
 // Usages is every key usage gokrb5 names (iana/keyusage) plus boundary values.
 var Usages = []uint32{1, 2, 3, 4, 5, 6, 7, 8, 9, 10, 11, 12, 13, 14, 15, 16, 17, 19, 22, 23, 24, 25, 50, 51, 52, 53, 54, 55, 56,
-	127, 128, 255, 256, 1024, 1 << 31}
+	127, 128, 255, 256, 1024, 1 << 31,
+	// numbers that use the two middle octets of the 32-bit usage
+	0x00010005, 0x00550000, 0x00aa0099, 0x12345678}
 
 func goET(id int32) etype.EType {
 	e, err := crypto.GetEtype(id)
